@@ -1,5 +1,8 @@
 import Driver.Util
 import Driver.BPE
+import Driver.Coo
+import Driver.Sliding
+import Driver.LZ
 import Driver.InfoWeight
 import Driver.Distances
 import Driver.Cooc
@@ -21,6 +24,9 @@ namespace Driver
 
 def handlers : List (String → Json → Option (R Json)) := [
   Driver.BPE.handle,
+  Driver.Coo.handle,
+  Driver.Sliding.handle,
+  Driver.LZ.handle,
   Driver.InfoWeight.handle,
   Driver.Distances.handle,
   Driver.Cooc.handle,
